@@ -33,7 +33,7 @@ def _npoly(item):
 
 
 STRUCTURE_KEYS = ("item", "window", "waters", "damage", "rename", "chains", "input_name",
-                  "lig_het", "lig_resname", "lig_drop_h")
+                  "lig_het", "lig_resname", "lig_drop_h", "bad_records")
 
 
 TITRATABLE = ("LYS", "ASP", "GLU", "HIS", "TYR", "CYS", "ARG")
@@ -125,6 +125,8 @@ def gen_cfg(rng, structure=None):
             cfg["damage"] = (cfg.get("damage") or []) + [[rng.randint(0, nres - 1), "altloc"]]
         if rng.random() < 0.10:
             cfg["damage"] = (cfg.get("damage") or []) + [[rng.randint(0, nres - 1), "icode"]]
+        if rng.random() < 0.10:
+            cfg["bad_records"] = sorted(rng.sample(range(11), rng.randint(1, 4)))
     argv = []
     r = rng.random()
     if r < 0.12:
@@ -361,6 +363,8 @@ def feature_families(seed, quick):
              {"item": "1AJJ.pdb", "chains": [" "]}, {"item": "1AJJ.pdb"},
              {"item": "cterm_hid.pdb", "lig_het": "ethanol.mol2"},
              {"item": "5vav_cyclic_peptide.pdb"},
+             {"item": "cterm_hid.pdb", "bad_records": True},
+             {"item": "1AJJ.pdb", "window": [2, 12], "bad_records": [0, 3, 6, 9]},
              {"item": "1BX8.pdb", "window": [3, 20], "chains": ["B", "A"],
               "damage": [[4, "add_oxt"], [9, "altloc"], [12, "icode"]]}]
     fams.append([dict(k, argv=["--ff=AMBER"]) for k in kinds])
@@ -732,7 +736,11 @@ def job_abort_sweep(job, scratch):
         o = c12.execute_run({"cfg": A, "entry": "run_pdb2pqr", "faults": [f]}, scdir, 0, None,
                             use_monitor=False)
         ops.append({"op": "run", "cfg": A, "faults": [f], "stage": name})
-        obs.append({"op": "run", "outcome": o["outcome"], "exc": o["exc"], "sha": None,
+        # (if the instant is never reached -- the run got shorter -- the run completes and is
+        # then held to the reference like any other run, so its real output is recorded)
+        adata = runner.read_bytes(o["paths"]["output"])
+        obs.append({"op": "run", "outcome": o["outcome"], "exc": o["exc"],
+                    "sha": runner.sha(adata), "len": len(adata) if adata is not None else None,
                     "fired": len(o["fired"]), "fired_kinds": ["exc"] if o["fired"] else []})
         c12.world_cleanup(scdir)
         B = others[k % len(others)]
